@@ -216,6 +216,27 @@ def handleN (case impl : List String) : Verdict :=
       let v := v.withSpec (!p.finite) "non-finite" "a coordinate or normal component is NaN or infinite"
       let v := v.withSpec (!indicesValid m) "index-out-of-range" "a face index is not below the vertex count"
       if v.spec.isSome then v else
+      -- a lathe turned through a PARTIAL azimuth range (0.1..0.9 of a turn) must not close up: on every
+      -- ring of positive radius the first and the last column are 2r·sin(π·Δ) apart, i.e. chord² ≥ 0.38 r²
+      let v := match case with
+        | "lathe" :: secs :: _ :: a0 :: a1 :: n :: _ =>
+          match secs.toNat?, n.toNat?, ratTok a0, ratTok a1 with
+          | some secs, some n, some a0, some a1 =>
+            let d := a1 - a0
+            if d < 1 / 10 || d > 9 / 10 || nv < n * (secs + 1) then v
+            else
+              match (List.range n).find? (fun j =>
+                  let p0 := m.verts[j * (secs + 1)]!.p
+                  let p1 := m.verts[j * (secs + 1) + secs]!.p
+                  let r2 := p0.1 * p0.1 + p0.2.2 * p0.2.2
+                  let c2 := (p0.1 - p1.1) * (p0.1 - p1.1) + (p0.2.2 - p1.2.2) * (p0.2.2 - p1.2.2)
+                  r2 > 0 && 10 * c2 < 3 * r2) with
+              | some j => v.withSpec true "azimuth-extent-wrong"
+                  s!"ring {j}: first and last column (nearly) coincide although the lathe spans {ratApprox d} of a turn"
+              | none => v
+          | _, _, _, _ => v
+        | _ => v
+      if v.spec.isSome then v else
       let ax := axisScales m
       let s := scaleOf m
       let sr := max ax.1 ax.2.2
